@@ -203,7 +203,8 @@ def run(chk):
                     problems.append("Ok row with up requested but presence not reported: " + desc)
                 if req["uv"] and rep["verification"] is not True:
                     problems.append("Ok row with uv requested but verification not reported: " + desc)
-                if req["up"] is None or req["uv"] is None:
+                # a row that does not test a requested option stands for both of its values: the gesture must be shown then
+                if (req["up"] is None and rep["presence"] is not True) or (req["uv"] is None and not (rep["verification"] is True and enabled is True)):
                     problems.append("Ok row that does not test the requested options: " + desc)
                 exp = sorted(([] if not rep["presence"] else ["UP"]) + ([] if not rep["verification"] else ["UV"]))
                 if rep["presence"] is None or rep["verification"] is None:
@@ -245,7 +246,9 @@ def run(chk):
                 for nme in ("up", "uv"):
                     if opt(t, nme):
                         d[nme] = flow.lab_true(labs)
-            combos.add((d.get("up"), d.get("uv")))
+            for u_ in ((True, False) if d.get("up") is None else (d["up"],)):
+                for v_ in ((True, False) if d.get("uv") is None else (d["uv"],)):
+                    combos.add((u_, v_))
         chk.ob("R2 consent decision table", "R2|check_user|covers-all-requests", {(True, True), (True, False), (False, True), (False, False)} <= combos, site,
                "requested (up,uv) combinations present in the table: %s" % sorted(map(str, combos)))
 
